@@ -98,7 +98,8 @@ M("C09", TAD, "Node.__init__", "        self.check_next_states()\n", "        if
 M("C09", TAD, "Node.check_next_states", 'raise ValueError("The next state must be an int.")', 'raise TypeError("The next state must be an int.")', "C09", "TypeError raised")
 # ---- C10 -------------------------------------------------------------------------------------------------------------
 M("C10", TAD, "StochasticGame.solve", "        self.check_game()\n", "        self.check_game()\n        self.final_states.sort()\n", "C10.1", "caller's final_states sorted in place")
-M("C10", TAD, "StochasticGame.solve", "        state_list = self.init_states()\n", "        state_list = self.init_states()\n        self.state_list = state_list\n", "C10.2", "node cache on the game object")
+M("C10", TAD, "StochasticGame.solve", "        logging.info(\"Done!\")\n", "        logging.info(\"Done!\")\n        self.prune_states = False\n", "C10.2", "the mode is switched off on the game object after the first solve")
+T(["C10", "C12"], TAD, "StochasticGame.solve", "        state_list = self.init_states()\n", "        state_list = self.init_states()\n        self.last_nodes = state_list\n", "write-only attribute kept on the game object (nothing reads it)")
 M("C10", TAD, "PlayerOne.prune_paths", "        self.next_states = [\n            _next_state for _next_state in self.next_states\n            if state_list[_next_state[NEXT_STATE_IDX]].reach_probability != 0]",
   "        for _next_state in list(self.next_states):\n            if state_list[_next_state[NEXT_STATE_IDX]].reach_probability == 0:\n                self.remove_path(_next_state)", None, "in-place removal over a snapshot: the private copy protects the input (must stay silent for C10)")
 M("C10", TAD, "StochasticGame.solve", "        self.check_game()\n", "        self.check_game()\n        list.sort(self.final_states)\n", "C10.1", "caller's final_states sorted through the unbound list.sort")
